@@ -154,6 +154,19 @@ func convertToFloat(other Object) (Float, bool) {
 	return 0, false
 }
 
+// floatNotImplemented is the result of a binary float operation whose
+// other operand convertToFloat refused: an int too large for a float
+// raises OverflowError (as float(other) does), anything else is left
+// to the other operand
+func floatNotImplemented(other Object) (Object, error) {
+	if b, ok := other.(*BigInt); ok {
+		if _, err := b.Float(); err != nil {
+			return nil, err
+		}
+	}
+	return NotImplemented, nil
+}
+
 func (a Float) M__neg__() (Object, error) {
 	return -a, nil
 }
@@ -170,7 +183,7 @@ func (a Float) M__add__(other Object) (Object, error) {
 	if b, ok := convertToFloat(other); ok {
 		return Float(a + b), nil
 	}
-	return NotImplemented, nil
+	return floatNotImplemented(other)
 }
 
 func (a Float) M__radd__(other Object) (Object, error) {
@@ -185,14 +198,14 @@ func (a Float) M__sub__(other Object) (Object, error) {
 	if b, ok := convertToFloat(other); ok {
 		return Float(a - b), nil
 	}
-	return NotImplemented, nil
+	return floatNotImplemented(other)
 }
 
 func (a Float) M__rsub__(other Object) (Object, error) {
 	if b, ok := convertToFloat(other); ok {
 		return Float(b - a), nil
 	}
-	return NotImplemented, nil
+	return floatNotImplemented(other)
 }
 
 func (a Float) M__isub__(other Object) (Object, error) {
@@ -203,7 +216,7 @@ func (a Float) M__mul__(other Object) (Object, error) {
 	if b, ok := convertToFloat(other); ok {
 		return Float(a * b), nil
 	}
-	return NotImplemented, nil
+	return floatNotImplemented(other)
 }
 
 func (a Float) M__rmul__(other Object) (Object, error) {
@@ -221,7 +234,7 @@ func (a Float) M__truediv__(other Object) (Object, error) {
 		}
 		return Float(a / b), nil
 	}
-	return NotImplemented, nil
+	return floatNotImplemented(other)
 }
 
 func (a Float) M__rtruediv__(other Object) (Object, error) {
@@ -231,7 +244,7 @@ func (a Float) M__rtruediv__(other Object) (Object, error) {
 		}
 		return Float(b / a), nil
 	}
-	return NotImplemented, nil
+	return floatNotImplemented(other)
 }
 
 func (a Float) M__itruediv__(other Object) (Object, error) {
@@ -243,7 +256,7 @@ func (a Float) M__floordiv__(other Object) (Object, error) {
 		q, _, err := floatDivMod(a, b)
 		return q, err
 	}
-	return NotImplemented, nil
+	return floatNotImplemented(other)
 }
 
 func (a Float) M__rfloordiv__(other Object) (Object, error) {
@@ -251,7 +264,7 @@ func (a Float) M__rfloordiv__(other Object) (Object, error) {
 		q, _, err := floatDivMod(b, a)
 		return q, err
 	}
-	return NotImplemented, nil
+	return floatNotImplemented(other)
 }
 
 func (a Float) M__ifloordiv__(other Object) (Object, error) {
@@ -293,7 +306,7 @@ func (a Float) M__mod__(other Object) (Object, error) {
 		_, r, err := floatDivMod(a, b)
 		return r, err
 	}
-	return NotImplemented, nil
+	return floatNotImplemented(other)
 }
 
 func (a Float) M__rmod__(other Object) (Object, error) {
@@ -301,7 +314,7 @@ func (a Float) M__rmod__(other Object) (Object, error) {
 		_, r, err := floatDivMod(b, a)
 		return r, err
 	}
-	return NotImplemented, nil
+	return floatNotImplemented(other)
 }
 
 func (a Float) M__imod__(other Object) (Object, error) {
@@ -312,14 +325,16 @@ func (a Float) M__divmod__(other Object) (Object, Object, error) {
 	if b, ok := convertToFloat(other); ok {
 		return floatDivMod(a, b)
 	}
-	return NotImplemented, None, nil
+	res, err := floatNotImplemented(other)
+	return res, None, err
 }
 
 func (a Float) M__rdivmod__(other Object) (Object, Object, error) {
 	if b, ok := convertToFloat(other); ok {
 		return floatDivMod(b, a)
 	}
-	return NotImplemented, None, nil
+	res, err := floatNotImplemented(other)
+	return res, None, err
 }
 
 func (a Float) M__pow__(other, modulus Object) (Object, error) {
@@ -329,14 +344,14 @@ func (a Float) M__pow__(other, modulus Object) (Object, error) {
 	if b, ok := convertToFloat(other); ok {
 		return Float(math.Pow(float64(a), float64(b))), nil
 	}
-	return NotImplemented, nil
+	return floatNotImplemented(other)
 }
 
 func (a Float) M__rpow__(other Object) (Object, error) {
 	if b, ok := convertToFloat(other); ok {
 		return Float(math.Pow(float64(b), float64(a))), nil
 	}
-	return NotImplemented, nil
+	return floatNotImplemented(other)
 }
 
 func (a Float) M__ipow__(other, modulus Object) (Object, error) {
